@@ -45,7 +45,7 @@ func init() {
 		Run:            run,
 		MinEvaluations: map[string]int{"quick": 500000, "thorough": 4000000},
 		MinNontrivial:  map[string]int{"quick": 300000, "thorough": 2500000},
-		RequiredObs: []string{
+		RequiredObs: []string{"results_edited_by_the_caller_then_the_same_string_decoded_again",
 			"Graph6Decode:outcome=error", "Graph6Decode:outcome=graph", "Sparse6Decode:outcome=error", "Sparse6Decode:outcome=graph",
 			"Sparse6Decode:accepted_stream_with_pairs_beyond_n", "Sparse6Decode:accepted_stream_with_loops_or_repeats", "Sparse6Decode:accepted_stream_ending_on_byte_boundary",
 			"Sparse6Decode:accepted_without_stream",
@@ -404,8 +404,48 @@ func (m *mon) judgeOutcome(dec, s, origin string) (outcome string) {
 	})
 	if pi != nil {
 		m.viol(dec, "reencoded-result-panics|"+engine.SiteNoLine(pi.Site), sk, d, pi.String(), "decode(encode(graph)) == graph")
+		return outGraph
 	} else if diff != "" {
 		m.viol(dec, "reencode-cycle-changes-graph", sk, d, diff+" (re-encoded as "+clip(s2)+")", "decode(encode(graph)) == graph")
+		return outGraph
+	}
+	// a history: the caller EDITS the graph it got (it is the caller's) and decodes the same string again: the second
+	// result must be what the first was.  All results on at most 2 vertices and every 8th other small result.
+	if eg, isEd := h.(graph.EditableGraph); isEd && !large && (gotN <= 2 || hash32(s)%8 == 0) {
+		var h3 graph.Graph
+		var err3 error
+		pi = c.Call(dec+"|"+sk+"|edit-result-then-decode-again", func() {
+			all := make([]int, eg.N())
+			for i := range all {
+				all[i] = i
+			}
+			eg.AddVertex(all)
+			eg.AddVertex(nil)
+			if eg.N() >= 2 {
+				if eg.IsEdge(0, 1) {
+					eg.RemoveEdge(0, 1)
+				} else {
+					eg.AddEdge(0, 1)
+				}
+			}
+			if dec == g6 {
+				var d *graph.DenseGraph
+				d, err3 = graph.Graph6Decode(s)
+				h3 = d
+			} else {
+				var d *graph.SparseGraph
+				d, err3 = graph.Sparse6Decode(s)
+				h3 = d
+			}
+		})
+		c.Obs("results_edited_by_the_caller_then_the_same_string_decoded_again", 1)
+		if pi != nil {
+			m.viol(dec, "decode-after-caller-edited-an-earlier-result-panics|"+engine.SiteNoLine(pi.Site), sk, d, pi.String(), "the same graph as the first time")
+		} else if err3 != nil {
+			m.viol(dec, "decode-after-caller-edited-an-earlier-result", sk, d, "error "+err3.Error(), "the same graph as the first time")
+		} else if b := rg.FromGraph(h3); b.N != model.N || !model.Equal(b) || rg.Conforms(h3, b) != "" {
+			m.viol(dec, "decode-after-caller-edited-an-earlier-result", sk, d, fmt.Sprintf("first decode gave %s; after the caller edited that result the same string decodes to %s", model, b), "the same graph as the first time: results are independent values")
+		}
 	}
 	return outGraph
 }
